@@ -100,7 +100,7 @@ def finalisation(f):
     return d
 
 
-def run(ck):
+def _run_own(ck):
     facts = ck.facts
     ck.decided('D1 per-gate table of Gate::add_to_graph: spider colours, connecting edge, phase constant and sqrt2 power reduce to the same semantic descriptor as the reference gate semantics AND as the independent tensor-side table of Circuit::to_tensor',
                'D2 qubit->output-slot map: PostSelect and Measure perform the same remove/forget/shift block keyed by the removed SLOT; SWAP only permutes the map, so the map must be consumed (as a gather in qubit order) when the outputs are finalised; every arm goes through the map',
@@ -218,3 +218,8 @@ def run(ck):
     fx = fixture()
     t2 = gatesem.graph_table(fx, 'gate::Gate::add_to_graph_ctl')
     ck.control('R-TABLE-graph flags a CZ drawn with a plain edge', t2 is not None and t2[0]['CZ'][0] != expected_graph('CZ'))
+
+
+def run(ck, **kw):
+    _run_own(ck)
+    ck.include('C01', 'the simplifier that runs while the diagram is built, and on every diagram it hands on, may apply a rule only under a matcher that establishes its precondition', parts=['D1', 'D2'])
